@@ -12,8 +12,8 @@ EXTENDS NyctTrips, Json
 
 CONSTANT TraceFile
 Trace == ndJsonDeserialize(TraceFile)
-VARIABLE l
-Init == l = 1
+VARIABLES l, nCF
+Init == l = 1 /\ nCF = 0
 
 AllPlain(ents) == \A i \in DOMAIN ents : IsPlain(ents[i])
 SwapApplies(ents, opts) ==
@@ -41,7 +41,9 @@ OriginStep(e) ==
 Step ==
     /\ l <= Len(Trace)
     /\ IF Trace[l].kind = "msg" THEN MsgStep(Trace[l]) ELSE OriginStep(Trace[l])
+    /\ nCF' = nCF + (IF Trace[l].kind = "msg" /\ Trace[l].err = "" /\ ConflictFree(Pre(Trace[l].msg, Trace[l].opts).ents) THEN 1 ELSE 0)
     /\ l' = l + 1
-Spec == Init /\ [][Step]_l
+    /\ (l = Len(Trace) => PrintT(<<"COUNT", "conflict_free_after_prepass", nCF'>>))
+Spec == Init /\ [][Step]_<<l, nCF>>
 TraceAccepted == TLCGet("stats").diameter - 1 = Len(Trace)
 =============================================================================
